@@ -314,12 +314,43 @@ def run_crash(env, prep, point, recover_cb):
     r1 = run_child(spec)
     pidmap = dict(prep["pidmap"])
     pidmap[r1.get("pid", -1)] = prep["tid"]
-    rec = S(prep["cur"], [C(x) for x in RECOVER_KEYS], cb=recover_cb, compress=prep["sess"].get("compress", False))
+    comp = prep["sess"].get("compress", False)
+    rec = S(prep["cur"], [C(x) for x in RECOVER_KEYS], cb=recover_cb, compress=comp)
+    # every other public read path, each in its own fresh process on its own copy of the crashed directory
+    extras = []
+    for tag, acts, cb in extra_recoveries():
+        d = loc + "_" + tag
+        copy_dir(loc, d)
+        extras.append((tag, d, S(prep["cur"], acts, cb=cb, compress=comp)))
     r2 = run_child(child_spec(env.mods, loc, rec, mode="trace", pre_state=True))
     pidmap[r2.get("pid", -2)] = prep["tid"] + 1
     shutil.rmtree(loc, ignore_errors=True)
+    xs = []
+    for tag, d, sess in extras:
+        rx = run_child(child_spec(env.mods, d, sess, mode="trace", pre_state=True))
+        pm = dict(pidmap)
+        pm[rx.get("pid", -3)] = prep["tid"] + 1
+        xs.append({"tag": tag, "sess": sess, "r": rx, "pidmap": pm})
+        shutil.rmtree(d, ignore_errors=True)
+        if os.path.exists(d + ".journal"):
+            os.unlink(d + ".journal")
     return {"point": [k, torn, ent["op"], ent["p"]], "crashed": bool(r1.get("crashed")), "r1": r1, "r2": r2,
-            "pidmap": pidmap, "recover": rec}
+            "pidmap": pidmap, "recover": rec, "extras": xs}
+
+
+def extra_recoveries():
+    """(tag, actions, callback); 'shelve*' are also compared with the model (AShelve)"""
+    ks = RECOVER_KEYS
+    return [
+        ("shelve", [{"a": "shelve", "k": k} for k in ks], None),
+        ("shelve_cb", [{"a": "shelve", "k": k} for k in ks], "valid"),
+        ("probe", [x for k in ks for x in ({"a": "check", "k": k}, {"a": "mr", "k": k}, C(k))], None),
+        ("probe_cb", [x for k in ks for x in ({"a": "check", "k": k}, {"a": "mr", "k": k})], "valid"),
+        ("shelve_clear", [{"a": "shelve_clear_call", "k": k} for k in ks], None),
+    ]
+
+
+MODELLED_EXTRAS = ("shelve", "shelve_cb")
 
 
 def judge_crash(prep, res):
@@ -348,6 +379,44 @@ def judge_crash(prep, res):
     return bad
 
 
+def judge_extras(prep, res):
+    """oracle on the other read paths; same (description, is_f23_signature) convention"""
+    bad = []
+    cur = prep["cur"]
+    for x in res.get("extras", []):
+        r = x["r"]
+        if "results" not in r:
+            bad.append(("harness: read-back process %s failed: %s" % (x["tag"], r), False))
+            continue
+        pre = {p: c for p, c in r.get("pre_state", [])}
+        stale_guard_lost = ("joblib/vmod/f/func_code.py" not in pre and
+                            any(p.endswith("/output.pkl") and c[0] == "val" and c[1][0] != cur for p, c in pre.items()))
+        acts = x["sess"]["acts"]
+        if len(r["results"]) != len(acts):
+            bad.append(("read-back %s: the cached function could not be built: %s" % (x["tag"], r["results"]), False))
+            continue
+        for a, o in zip(acts, r["results"]):
+            k = a["k"]
+            what = "%s(%d) [%s, callback=%s] in a fresh process after the crash" % (a["a"], k, x["tag"], x["sess"].get("cb"))
+            if "raise" in o:
+                bad.append(("%s raised %s: %s" % (what, o["raise"], o.get("msg", "")), False))
+            elif a["a"] == "check":
+                if not isinstance(o.get("check"), bool):
+                    bad.append(("%s did not return a bool: %s" % (what, o), False))
+            elif a["a"] == "mr":
+                v = o.get("ok")
+                if o.get("mr") != "KeyError" and not (isinstance(v, list) and len(v) == 2 and v[1] == k):
+                    bad.append(("%s returned %s, not a value of f(%d)" % (what, v, k), False))
+            elif o.get("ok") != [cur, k]:
+                sig = (prep["name"] == "source_change" and stale_guard_lost and isinstance(o.get("ok"), list)
+                       and o["ok"][1] == k and o["ok"][0] != cur)
+                bad.append(("%s returned %s, the function gives %s" % (what, o.get("ok"), [cur, k]), sig))
+            elif a["a"] == "shelve_clear_call" and o.get("first") != [cur, k]:
+                sig = (prep["name"] == "source_change" and stale_guard_lost)
+                bad.append(("%s: the shelved reference gave %s, the function gives %s" % (what, o.get("first"), [cur, k]), sig))
+    return bad
+
+
 def model_exprs_for(prep, crash_results, recover_cb):
     """Coq definitions + expressions for one workload: the traced full run and every crash run."""
     name = prep["name"]
@@ -369,7 +438,14 @@ def model_exprs_for(prep, crash_results, recover_cb):
         k, torn = cr["point"][0], cr["point"][1]
         t = "None" if torn is None else "(Some 1%nat)"
         c = "(crash_run %s_w %d %s %s_base)" % (name, k, t, name)
-        exprs.append("(showfs %s, showouts (fst (run %s_rec %s)), showfs (snd (run %s_rec %s)))" % (c, name, c, name, c))
+        sh = []
+        for tag, cbv in (("shelve", None), ("shelve_cb", "valid")):
+            sh.append("showouts (fst (run %s_%s %s)), showfs (snd (run %s_%s %s))" % (name, tag, c, name, tag, c))
+        exprs.append("(showfs %s, showouts (fst (run %s_rec %s)), showfs (snd (run %s_rec %s)), %s)"
+                     % (c, name, c, name, c, ", ".join(sh)))
+    for tag, cbv in (("shelve", None), ("shelve_cb", "valid")):
+        defs.append("Definition %s_%s := %s." % (name, tag, coq_sess(
+            S(prep["cur"], [{"a": "shelve", "k": x} for x in RECOVER_KEYS], cb=cbv), prep["tid"] + 1)))
     return defs, exprs
 
 
@@ -399,7 +475,7 @@ def compare_full(prep, m):
 
 
 def compare_crash(prep, cr, m):
-    mpre, mouts, mpost = m
+    mpre, mouts, mpost = m[0], m[1], m[2]
     r2 = cr["r2"]
     if "results" not in r2:
         return ["recovery process failed: %s" % r2]
@@ -418,6 +494,19 @@ def compare_crash(prep, cr, m):
     if ipost != mpost:
         bad.append("directories after recovery differ: model-only %s, implementation-only %s"
                    % (sorted(set(mpost) - set(ipost)), sorted(set(ipost) - set(mpost))))
+    for j, tag in enumerate(MODELLED_EXTRAS):
+        x = next((e for e in cr.get("extras", []) if e["tag"] == tag), None)
+        if x is None or "results" not in x["r"]:
+            bad.append("read-back %s did not run: %s" % (tag, x and x["r"]))
+            continue
+        xo, xs = m[3 + 2 * j], fs_entries(m[4 + 2 * j])
+        io = canon_outs(x["r"]["results"])
+        if [tuple(y) for y in xo] != io:
+            bad.append("%s outcomes differ: model %s, implementation %s" % (tag, xo, io))
+        ist = canon_state(x["r"]["state"], x["pidmap"])
+        if ist != xs:
+            bad.append("directories after %s differ: model-only %s, implementation-only %s"
+                       % (tag, sorted(set(xs) - set(ist)), sorted(set(ist) - set(xs))))
     return bad
 
 
@@ -496,7 +585,7 @@ def run(ctx):
             nontrivial.add((prep["name"], cr["point"][0], cr["point"][1]))
         for b in compare_crash(prep, cr, m):
             disagreements.append({"workload": prep["name"], "stage": "crash", "point": cr["point"], "what": b})
-        for what, sig in judge_crash(prep, cr):
+        for what, sig in judge_crash(prep, cr) + judge_extras(prep, cr):
             rep = {"kind": "crash", "workload": prep["name"], "prelude": wls[prep["name"]][0], "session": prep["sess"],
                    "crash_at": cr["point"][0], "torn": cr["point"][1], "op": cr["point"][2:], "recover": cr["recover"]}
             if sig:
